@@ -3,7 +3,8 @@ PROPS = {
                 technique="runtime fault-injection monitor: real telegram.Client over a harness kill-switch link against tgtest, server-side execution log + caller outcomes",
                 text="Fault table {before send (write stuck / frame torn / bytes lost), after send, after ack (ack consumption confirmed), after result} x {reconnect, client close} x 1..3 in flight, "
                      "enumerated completely per variation; unacknowledged requests must be re-executed on the replacement connection and return their result, acknowledged ones must not be "
-                     "executed again and must fail, after close pending and new invocations must return. Race detector on.",
+                     "executed again and must fail, after close pending and new invocations must return. Race detector on. Both a harness-side socket close and a server-side "
+                     "disconnect (real EPIPE) are used as the kill.",
                 note="Trusted: tgtest as MTProto peer, loopback TCP, the client's own logger record as the 'ack consumed' barrier. An ack/result in flight at the kill allows either outcome. "
                      "Hangs are verdicts only when the goroutine is provably parked in invokeConn after the awaited event; other watchdog expiries are inconclusive.",
                 watchdog={"quick": 900, "thorough": 3 * 3600}),
@@ -12,7 +13,7 @@ PROPS = {
                 text="Random histories of session notifications from primary / non-primary / CDN connections, with and without a PFS permanent key and with primary migrations, against a recording "
                      "session.Storage: every write must be the last primary notification's (DC, key or permanent key, salt); every single-byte corruption of the stored key / key id must make "
                      "Client.Run fail before any dial.",
-                note="Direct arm drives the client's own OnSession handlers through the verif hook (no network). Load arm trusts encoding/json and crypto/sha1. End-to-end arm uses tgtest/cluster "
-                     "without PFS (tgtest has no bindTempAuthKey).",
+                note="Direct arm drives the client's own OnSession handlers through the verif hook (no network). Load arm trusts encoding/json and crypto/sha1; over-long keys are not generated. "
+                     "End-to-end arm: 3-DC tgtest cluster, sub-DC pool + primary migration, PFS on/off (harness answers auth.bindTempAuthKey); few runs.",
                 watchdog={"quick": 900, "thorough": 3 * 3600}),
 }
